@@ -89,6 +89,10 @@ theorem Dflt.finishCycle {s : Sys} (h : Dflt s) (kept : List (Nat × Ring Cmd)) 
 theorem Dflt.withCyc {s : Sys} (h : Dflt s) (c : Option CycState) : Dflt { s with cyc := c } :=
   ⟨h.nc, h.flushed, h.nodup, h.rep⟩
 
+/-- the per-thread order logs are not read by `Dflt` -/
+theorem Dflt.withDrained {s : Sys} (h : Dflt s) (l : List (Nat × Cmd)) : Dflt (s.withG { s.g with drainedBy := l }) :=
+  ⟨h.nc, h.flushed, h.nodup, h.rep⟩
+
 theorem Dflt.cycStep {s : Sys} (h : Dflt s) : Dflt s.cycStep.1 := by
   unfold Sys.cycStep
   split
@@ -96,17 +100,17 @@ theorem Dflt.cycStep {s : Sys} (h : Dflt s) : Dflt s.cycStep.1 := by
   · split
     · exact h.finishCycle _ _ _
     · split
-      · exact h.withCyc _
+      · first | exact h.withCyc _ | exact (h.withDrained _).withCyc _
       · dsimp only
-        split <;> exact h.withCyc _
-    · exact h.withCyc _
-    · exact h.withCyc _
+        split <;> first | exact h.withCyc _ | exact (h.withDrained _).withCyc _
+    · first | exact h.withCyc _ | exact (h.withDrained _).withCyc _
+    · first | exact h.withCyc _ | exact (h.withDrained _).withCyc _
     · dsimp only
       split
-      · split <;> exact h.withCyc _
+      · split <;> first | exact h.withCyc _ | exact (h.withDrained _).withCyc _
       · split
-        · split <;> exact h.withCyc _
-        · exact h.withCyc _
+        · split <;> first | exact h.withCyc _ | exact (h.withDrained _).withCyc _
+        · first | exact h.withCyc _ | exact (h.withDrained _).withCyc _
 
 theorem Dflt.cycBegin {s : Sys} (h : Dflt s) : Dflt s.cycBegin.1 := by
   unfold Sys.cycBegin
@@ -130,12 +134,12 @@ theorem exec_dflt (s : Sys) (t : Nat) (op : Op) (hop : op ≠ .setReporter true)
       simp only [exec]
       split
       · exact h
-      · exact h.finishCycle _ _ _
+      · exact (h.withDrained _).finishCycle _ _ _
     | flush =>
       simp only [exec]
       split
       · exact h
-      · exact h.finishCycle _ _ _
+      · exact (h.withDrained _).finishCycle _ _ _
     | cycBegin => simp only [exec]; exact h.cycBegin
     | cycStep => simp only [exec]; exact h.cycStep
     | _ => cases hc
@@ -320,6 +324,8 @@ theorem HasRep.finishCycle {s : Sys} (h : HasRep s) (kept : List (Nat × Ring Cm
   · rw [f5, h.has]; exact h.none
 
 theorem HasRep.withCyc {s : Sys} (h : HasRep s) (c : Option CycState) : HasRep { s with cyc := c } := ⟨h.has, h.none⟩
+theorem HasRep.withDrained {s : Sys} (h : HasRep s) (l : List (Nat × Cmd)) : HasRep (s.withG { s.g with drainedBy := l }) :=
+  ⟨h.has, h.none⟩
 
 theorem HasRep.cycStep {s : Sys} (h : HasRep s) : HasRep s.cycStep.1 := by
   unfold Sys.cycStep
@@ -328,17 +334,17 @@ theorem HasRep.cycStep {s : Sys} (h : HasRep s) : HasRep s.cycStep.1 := by
   · split
     · exact h.finishCycle _ _ _
     · split
-      · exact h.withCyc _
+      · first | exact h.withCyc _ | exact (h.withDrained _).withCyc _
       · dsimp only
-        split <;> exact h.withCyc _
-    · exact h.withCyc _
-    · exact h.withCyc _
+        split <;> first | exact h.withCyc _ | exact (h.withDrained _).withCyc _
+    · first | exact h.withCyc _ | exact (h.withDrained _).withCyc _
+    · first | exact h.withCyc _ | exact (h.withDrained _).withCyc _
     · dsimp only
       split
-      · split <;> exact h.withCyc _
+      · split <;> first | exact h.withCyc _ | exact (h.withDrained _).withCyc _
       · split
-        · split <;> exact h.withCyc _
-        · exact h.withCyc _
+        · split <;> first | exact h.withCyc _ | exact (h.withDrained _).withCyc _
+        · first | exact h.withCyc _ | exact (h.withDrained _).withCyc _
 
 theorem exec_hasRep (s : Sys) (t : Nat) (op : Op) (h : HasRep s) : HasRep (exec s t op).1 := by
   cases hc : op.isCollectorOp with
@@ -350,12 +356,12 @@ theorem exec_hasRep (s : Sys) (t : Nat) (op : Op) (h : HasRep s) : HasRep (exec 
       simp only [exec]
       split
       · exact h
-      · exact h.finishCycle _ _ _
+      · exact (h.withDrained _).finishCycle _ _ _
     | flush =>
       simp only [exec]
       split
       · exact h
-      · exact h.finishCycle _ _ _
+      · exact (h.withDrained _).finishCycle _ _ _
     | cycBegin =>
       simp only [exec]
       unfold Sys.cycBegin
